@@ -75,7 +75,7 @@ def shrink(case, fails):
 
 def run(ctx):
     quick = ctx.tier == "quick"
-    n_main, n_mis = (9000, 1500) if quick else (700000, 80000)
+    n_main, n_mis = (7000, 1000) if quick else (600000, 60000)
     ctx.assumptions += [
         "model: one task (harness-owned wasip3_task, C ABI v1 or v2, registration map + lazily created waitable set exactly as SharedTaskState keeps them); every API call is made inside that task (outside any task FutureWriter::drop with a live, non-reading reader trips register_waker's assert — out of the quantifier)",
         "model: payload values are never inspected, so the per-future core carries them symbolically (user's latest accepted write / default / peer's) and the wrapper resolves them; C20_exactly_once's last clause (a user write is accepted only while nothing has been moved) is what makes the symbol unambiguous; the tie compares the concrete numbers",
@@ -90,33 +90,69 @@ def run(ctx):
     if not ok2:
         ctx.tie_broken("tie", "model extraction/driver build failed:\n" + log2[-3000:]); return
     rng = ctx.rng
-    # ---- inputs: corpus, main stream (legal use only: cut right before a misuse panic of the REAL code), misuse stream
     corpus = load_corpus()
-    raw = [g.gen_case(rng, misuse=False, with_cleanup=False) for _ in range(n_main)]
-    raw_out = rtmock.run(exe_r, raw)
-    main = []
-    ncut = 0
-    for c, o in zip(raw, raw_out):
-        c2 = g.cut_at_panic(c, o)
-        ncut += c2 != c
-        if len(c2.split()) < 2:
-            c2 = c.split()[0] + " " + c.split()[1]
-        main.append(g.with_cleanup(c2) if rng.chance(9, 10) else c2)
-    mis = [g.gen_case(rng, misuse=True) for _ in range(n_mis)]
-    cases = corpus + main + mis
-    kinds = ["corpus"] * len(corpus) + ["main"] * len(main) + ["misuse"] * len(mis)
-    real = rtmock.run(exe_r, cases)
-    model = vf.run_filter([exe_m], cases)
-    # ---- tie
-    mism = [(c, r, m) for c, r, m in zip(cases, real, model) if r != m]
-    # ---- search: the property on the real lines
-    viol = []
-    for c, r in zip(cases, real):
-        b = g.holds(c, r)
-        if b:
-            viol.append((c, r, b))
+    feat = collections.Counter()
+    acts = collections.Counter()
+    nontriv = set()
+    tot = {"cases": 0, "main": 0, "misuse": 0, "cut": 0, "panic": 0, "mism": 0, "viol": 0}
+    first_mism = []
+    viols = []
+    samples = []
+    batch = 60000
+    todo = [("corpus", len(corpus))]
+    k = n_main
+    while k > 0:
+        todo.append(("main", min(batch, k))); k -= batch
+    k = n_mis
+    while k > 0:
+        todo.append(("misuse", min(batch, k))); k -= batch
+    for kind, n in todo:
+        # ---- inputs: corpus / main stream (legal use only: cut right before a misuse panic of the REAL
+        #      code, clean-up suffix in 90%) / misuse stream
+        if kind == "corpus":
+            cases = list(corpus)
+        elif kind == "main":
+            raw = [g.gen_case(rng, misuse=False, with_cleanup=False) for _ in range(n)]
+            raw_out = rtmock.run(exe_r, raw)
+            cases = []
+            for c, o in zip(raw, raw_out):
+                c2 = g.cut_at_panic(c, o)
+                tot["cut"] += c2 != c
+                if len(c2.split()) < 2:
+                    c2 = " ".join(c.split()[:2])
+                cases.append(g.with_cleanup(c2) if rng.chance(9, 10) else c2)
+        else:
+            cases = [g.gen_case(rng, misuse=True) for _ in range(n)]
+        if not cases:
+            continue
+        real = rtmock.run(exe_r, cases)
+        model = vf.run_filter([exe_m], cases)
+        tot["cases"] += len(cases)
+        if kind != "corpus":
+            tot[kind] += len(cases)
+        # ---- tie
+        mism = [(c, r, m) for c, r, m in zip(cases, real, model) if r != m]
+        tot["mism"] += len(mism)
+        if mism and not first_mism:
+            first_mism = mism[:1]
+        # ---- search: the property on the real lines
+        for c, r in zip(cases, real):
+            b = g.holds(c, r)
+            if b:
+                tot["viol"] += 1
+                if len(viols) < 60:
+                    viols.append((c, r, b))
+            for f in g.features(r):
+                feat[f] += 1
+            for a in c.split()[1:]:
+                acts[a.split(":")[0]] += 1
+            if g.nontrivial(r):
+                nontriv.add(hash(c))
+            tot["panic"] += "=PANIC" in r
+        if kind != "corpus" and len(samples) < 3:
+            samples.append({"stream": kind, "scenario": cases[0], "real": real[0]})
     reported = set()
-    for c, r, b in viol[:40]:
+    for c, r, b in viols:
         rule = b[0][0]
         if rule in reported:
             continue
@@ -126,46 +162,35 @@ def run(ctx):
         bs = [x for x in g.holds(small, rs) if x[0] == rule] or b
         ctx.violation("c20:%s:%s" % (rule, small.replace(" ", ",")), bs[0][1],
                       {"case": small, "real": rs, "rule": rule, "original": c})
-    if mism:
-        c, r, m = mism[0]
+    if first_mism:
+        c, r, m = first_mism[0]
         small = shrink(c, lambda cc: one_real(exe_r, cc) != vf.run_filter([exe_m], [cc], shards=1)[0])
         rs, ms = one_real(exe_r, small), vf.run_filter([exe_m], [small], shards=1)[0]
         rt, mt = rs.split(), ms.split()
         k = next((i for i, (a, b) in enumerate(zip(rt, mt)) if a != b), min(len(rt), len(mt)))
         ctx.tie_broken("tie", "model and real runtime disagree on %d/%d scenarios; minimised: %r\n real : %s\n model: %s\n first difference at token %d: real %r, model %r" % (
-            len(mism), len(cases), small, rs, ms, k, rt[k:k + 3], mt[k:k + 3]))
-        if not viol:
-            # no property predicate fails on the real line: still give the failing input a replay file
+            tot["mism"], tot["cases"], small, rs, ms, k, rt[k:k + 3], mt[k:k + 3]))
+        if not viols:
             ctx.notes.append("tie mismatch without a property violation on the real line: " + small)
     # ---- evidence
-    feat = collections.Counter()
-    acts = collections.Counter()
-    nontriv = set()
-    npanic = 0
-    for c, r, k in zip(cases, real, kinds):
-        for f in g.features(r):
-            feat[f] += 1
-        for a in c.split()[1:]:
-            acts[a.split(":")[0]] += 1
-        if g.nontrivial(r):
-            nontriv.add(c)
-        npanic += "=PANIC" in r
     bfs = vf.sh([exe_m, "bfs"], timeout=120)[1].strip()
     st = tr = 0
     for part in bfs.split():
+        if ":" not in part:
+            continue
         for kv in part.split(":", 1)[1].split(","):
             k, v = kv.split("=")
             if k == "states": st += int(v)
             if k == "transitions": tr += int(v)
     ctx.coverage.update({
-        "evaluations": len(cases), "distinct_nontrivial": len(nontriv),
+        "evaluations": tot["cases"], "distinct_nontrivial": len(nontriv),
         "rule": "seeded scenario lines: 1-3 futures (own / imported, u32 / heap payload), 3-22 actions over write/poll/cancel/drop of ops and ends, transfer, peer read/write/drop, event delivery, plus scripted race patterns (operation in flight, other side moves, cancel/drop/poll with or without delivery), task ABI v1/v2; main stream = legal API use (cut before the first misuse panic of the real code) + clean-up suffix in 90%; misuse stream = polls/cancels of finished operations allowed; non-trivial = an operation blocked, a cancel intrinsic was called or a default value was written; distinct = distinct scenario lines",
-        "samples": [{"scenario": c, "real": r} for c, r in list(zip(main, real[len(corpus):]))[:2]] + [{"scenario": c, "real": r} for c, r in list(zip(mis, real[len(corpus) + len(main):]))[:1]],
-        "traces_validated_against_impl": len(cases), "model_mismatches": len(mism),
-        "property_violations_on_real_lines": len(viol),
+        "samples": samples,
+        "traces_validated_against_impl": tot["cases"], "model_mismatches": tot["mism"],
+        "property_violations_on_real_lines": tot["viol"],
         "states": st, "transitions": tr,
-        "distribution": {"corpus": len(corpus), "main": len(main), "misuse": len(mis), "main_cut_before_misuse_panic": ncut,
-                         "scenarios_ending_in_documented_panic": npanic, "actions": dict(acts), "features": dict(feat),
+        "distribution": {"corpus": len(corpus), "main": tot["main"], "misuse": tot["misuse"], "main_cut_before_misuse_panic": tot["cut"],
+                         "scenarios_ending_in_documented_panic": tot["panic"], "actions": dict(acts), "features": dict(feat),
                          "core_state_space": bfs},
     })
 
